@@ -7,3 +7,4 @@ open GoRedis
 #print axioms C17_total
 #print axioms C17_scan_uses_glob
 #print axioms C17_fast_matcher
+#print axioms C17_source_glob_is_the_modelled_one
